@@ -57,3 +57,24 @@ package tchannel
 //@ func NewFrame(payloadCapacity int) (f *Frame)
 //@   ensures fresh(f.buffer)
 //@   property C06 C03
+
+// ---------------------------------------------------------------------------
+// C01: the chunk rule at a fragment boundary
+// ---------------------------------------------------------------------------
+
+// chunkStart(f): where the chunk area of a freshly made fragment begins (the
+// write cursor as newFragment leaves it, right after the fragment header).
+//@ ghostfield chunkStart
+//@ iface fragmentSender.newFragment(initial bool, checksum Checksum) (f *writableFragment, err error)
+//@   ensures err == nil ==> chunkStart(f) == off(f.contents.remaining)
+
+// When closing a non-last argument forces a flush (no room left for the next
+// argument's chunk header), the next fragment begins with an EMPTY chunk -- the
+// marker "the previous argument ended in the previous fragment" -- whatever the
+// size of the chunk that was just closed, including 0.
+//@ func (w *fragmentingWriter) Close() (err error)
+//@   label next-fragment-begins-with-the-empty-terminator
+//@   ensures old(w.err) == nil && old(w.state) == fragmentingWriteInArgument && err == nil && nflushed(w.sender) > old(nflushed(w.sender)) ==>
+//@             off(w.curFragment.contents.remaining) == chunkStart(w.curFragment) + 2 &&
+//@             be16(w.curFragment.frame.Payload, chunkStart(w.curFragment) - off(w.curFragment.frame.Payload)) == 0
+//@   property C01
